@@ -1,6 +1,7 @@
 import Oas3Model.Model.Naming
 import Oas3Model.Gen.Naming
 import Oas3Model.Proofs.Naming
+import Oas3Model.Model.Registry
 namespace Oas3.Props.C09
 open Oas3.Naming
 
@@ -111,5 +112,99 @@ example : legal .field "fn".toList = false := by decide
 example : legal .type "Vec".toList = false := by decide
 example : legal .field "a-b".toList = false := by decide
 example : legal .field "r#fn".toList = true := by decide
+
+/-! ### identifiers derived from operations (`<Base>Request[Params]`, `<Base>Response[Enum]`) next to the
+component schemas of the same document -/
+section OpNames
+open Oas3.Registry
+
+/-- last character of a non-empty suffix survives appending in front -/
+theorem getLast?_append_ne (x y : List Char) (h : y ≠ []) : (x ++ y).getLast? = y.getLast? := by
+  induction x with
+  | nil => rfl
+  | cons a t ih =>
+    cases hty : t ++ y with
+    | nil => cases t <;> simp_all
+    | cons b r =>
+      have : (a :: t ++ y) = a :: b :: r := by simp [hty]
+      rw [this, List.getLast?_cons_cons, ← hty, ih]
+
+theorem requestName_last (t : List (List Char)) (id : Id) :
+    (requestName t id).getLast? = some 't' ∨ (requestName t id).getLast? = some 's' := by
+  unfold requestName
+  simp only []
+  split
+  · right; rw [getLast?_append_ne _ _ (by decide)]; rfl
+  · left; rw [getLast?_append_ne _ _ (by decide)]; rfl
+
+theorem responseRaw_last (t : List (List Char)) (id : Id) :
+    (responseRaw t id).getLast? = some 'e' ∨ (responseRaw t id).getLast? = some 'm' := by
+  unfold responseRaw
+  simp only []
+  split
+  · right; rw [getLast?_append_ne _ _ (by decide)]; rfl
+  · left; rw [getLast?_append_ne _ _ (by decide)]; rfl
+
+/-- a request struct and a response enum (before its final conversion) never get the same text -/
+theorem request_ne_responseRaw (t t' : List (List Char)) (a b : Id) : requestName t a ≠ responseRaw t' b := by
+  intro h
+  have h1 := requestName_last t a
+  have h2 := responseRaw_last t' b
+  rw [h] at h1
+  rcases h1 with h1 | h1 <;> rcases h2 with h2 | h2 <;> rw [h1] at h2 <;> exact absurd h2 (by decide)
+
+/-- distinct type bases give distinct request structs -/
+theorem requestName_inj (t : List (List Char)) (a b : Id) (h : requestName t a = requestName t b) : typeName a = typeName b := by
+  unfold requestName at h
+  simp only [] at h
+  split at h <;> split at h
+  · exact (List.append_left_inj _).1 ((List.append_left_inj _).1 h)
+  · have := congrArg List.getLast? h
+    rw [getLast?_append_ne _ _ (by decide), getLast?_append_ne _ _ (by decide)] at this
+    exact absurd this (by decide)
+  · have := congrArg List.getLast? h
+    rw [getLast?_append_ne _ _ (by decide), getLast?_append_ne _ _ (by decide)] at this
+    exact absurd this (by decide)
+  · exact (List.append_left_inj _).1 h
+
+/-- the request struct stays outside the reserved names unless BOTH candidates are reserved (or the first
+candidate is not a fixed point of `to_rust_type_name`) -/
+theorem requestName_fresh (t : List (List Char)) (id : Id)
+    (hfix : typeName (typeName id ++ sfxRequest) = typeName id ++ sfxRequest)
+    (hfree : ¬ (typeName id ++ sfxRequest ∈ t ∧ typeName id ++ sfxRequest ++ sfxParams ∈ t)) :
+    requestName t id ∉ t := by
+  unfold requestName
+  simp only []
+  rw [hfix]
+  split
+  · rename_i hc
+    intro hm
+    exact hfree ⟨by simpa using hc, hm⟩
+  · rename_i hc
+    simpa using hc
+
+def petKeys : List (List Char) := ["Pet".toList, "create_pet_response".toList]
+def okIds : List Id := ["create_pet".toList, "list_pets".toList]
+
+/-- non-vacuity: with the schemas `Pet`, `create_pet_response` the two operations get four distinct, legal
+identifiers, none of them the Rust name of a schema (`CreatePetResponse` is avoided) -/
+theorem ex_opTypeNames :
+    opTypeNames (reserved petKeys) okIds =
+      ["CreatePetRequest".toList, "CreatePetResponseEnum".toList, "ListPetsRequest".toList, "ListPetsResponse".toList] := by decide +kernel
+
+theorem ex_opTypeNames_ok :
+    (opTypeNames (reserved petKeys) okIds).all (fun n => legal .type n && !(petKeys.map typeName).contains n) = true ∧
+    contested petKeys okIds = [] := by decide +kernel
+
+/-- WITNESS of the collision that remains: when the fallback name is a schema's Rust name too, the operation's
+request struct and the schema `create_pet_request_params` claim one identifier -/
+theorem cex_fallback_taken :
+    contested ["CreatePetRequest".toList, "create_pet_request_params".toList] ["create_pet".toList] = ["CreatePetRequestParams".toList] := by decide +kernel
+
+/-- WITNESS: stable ids that differ (`create_pet_2`, `create_pet2`) with one type base -/
+theorem cex_base_merge :
+    "create_pet_2".toList ≠ "create_pet2".toList ∧ typeName "create_pet_2".toList = typeName "create_pet2".toList ∧
+    contested [] ["create_pet_2".toList, "create_pet2".toList] = ["CreatePet2Request".toList, "CreatePet2Response".toList] := by decide +kernel
+end OpNames
 
 end Oas3.Props.C09
